@@ -164,6 +164,13 @@ impl Cfg {
             cfg.size_class = 5;
             cfg.count = cfg.count.clamp(1, 3);
         }
+        if r.chance(1, 10) {
+            // mixed sizes inside ONE batch: small items with a single 70-200 kB item among them (not the
+            // first), batch large enough to hold them all, flushed by finish()
+            cfg.batch = Some((100, 3_600_000));
+            cfg.size_class = 8;
+            cfg.count = r.range(3, 6) as usize;
+        }
         if r.chance(1, 14) {
             // the frame limit itself: items whose frame payload falls in the last bytes below the
             // limit (unbatched: 1 + 8 + n; a batch of one: 8 + 8 + n), no compression, byte items
@@ -186,6 +193,7 @@ fn payload_len(r: &mut Rng, class: u64) -> usize {
         3 => 2000 + r.below(3000) as usize,
         5 => 131_000 + r.below(60_000) as usize,
         // one byte is appended to every item (its index)
+        8 => r.below(40) as usize,
         6 => crate::wire::MAX - 9 - 1 - r.below(12) as usize,
         7 => crate::wire::MAX - 16 - 1 - r.below(12) as usize,
         _ => r.below(40) as usize,
@@ -343,7 +351,7 @@ pub async fn run_case(client: &Client, raw: &RawPeer, seed: u64, i: u64, cfg: &C
                     if make_empty(&mut r, k, cfg) {
                         return String::new();
                     }
-                    let n = payload_len(&mut r, cfg.size_class);
+                    let n = if cfg.size_class == 8 && k == 1 + (seed + i) as usize % (cfg.count.max(2) - 1) { 70_000 + r.below(130_000) as usize } else { payload_len(&mut r, cfg.size_class) };
                     let alphabet: &[char] = &['a', 'b', ' ', 'é', '\u{1F600}', 'Z', '7', '\n'];
                     let mut s: String = (0..n).map(|_| *r.pick(alphabet)).collect();
                     s.push_str(&format!("#{}", k));
@@ -358,7 +366,7 @@ pub async fn run_case(client: &Client, raw: &RawPeer, seed: u64, i: u64, cfg: &C
                     if make_empty(&mut r, k, cfg) {
                         return vec![];
                     }
-                    let n = payload_len(&mut r, cfg.size_class);
+                    let n = if cfg.size_class == 8 && k == 1 + (seed + i) as usize % (cfg.count.max(2) - 1) { 70_000 + r.below(130_000) as usize } else { payload_len(&mut r, cfg.size_class) };
                     let mut v = if r.chance(1, 2) { r.bytes(n) } else { vec![r.next() as u8; n] };
                     v.push(k as u8);
                     v
@@ -369,7 +377,7 @@ pub async fn run_case(client: &Client, raw: &RawPeer, seed: u64, i: u64, cfg: &C
         _ => {
             let items: Vec<Dummy> = (0..cfg.count)
                 .map(|k| {
-                    let n = payload_len(&mut r, cfg.size_class);
+                    let n = if cfg.size_class == 8 && k == 1 + (seed + i) as usize % (cfg.count.max(2) - 1) { 70_000 + r.below(130_000) as usize } else { payload_len(&mut r, cfg.size_class) };
                     Dummy { foo: "x".repeat(n), bar: k as u64 }
                 })
                 .collect();
